@@ -49,7 +49,7 @@ impl Prop for C06 {
         "history programs: 2-5 access-site functions (o.k read, o.k write sloppy/strict, o.length, global read, global write, super.x/super.a method call, with-scoped read) over a pool of 3-8 objects built by different routes (literals in different key order, Object.create chains of depth 1-3, class/derived instances, arrays, functions, accessors, non-writable own property, __proto__ literal, primitives, null-prototype, Proxy, frozen) and 10-60 steps that either call a site 1-4 times on an object and print the result or mutate the receiver / its prototype / the prototype's prototype / a shared intrinsic prototype / the global object (add, delete, data<->accessor, writable/enumerable flips, freeze/seal/preventExtensions, setPrototypeOf, self-replacing getter); every program ends with every site applied to every object. The same program runs with inline caches on and off (hook) and with caches on under forced collections; traces must be equal [thorough: caches-off boa also equals V8]. Non-trivial = some site ran >= 3 times before a mutation happened (warm cache, then mutation); distinct = distinct source".into()
     }
     fn run_case(&self, env: &mut Env, _stream: &str, _index: u64, tape: &[u8]) -> CaseOut {
-        let p = generate(tape, &IcOpts { excl_f10_proto_shape_change: !crate::props::c06::f10_fixed(), excl_f23_array_length_store: !f10_fixed(), excl_f24_shape_change_in_accessor: !f10_fixed() });
+        let p = generate(tape, &IcOpts { excl_f10_proto_shape_change: !crate::props::c06::f10_fixed(), excl_f23_array_length_store: false, excl_f24_shape_change_in_accessor: !f10_fixed(), excl_f31_own_shadow_on_unique_shape: !f10_fixed() });
         let mut labels = p.labels.clone();
         if p.excluded > 0 {
             labels.push("excluded-ic-known-findings");
